@@ -40,8 +40,8 @@ def gen_pair(rng, thorough=False, maxn=None):
     u = rng.random()
     if u < 0.6:
         n = rng.choice(list(range(1, 65)))
-    elif u < 0.95:
-        n = rng.randint(65, 2000 if not thorough else 6000)
+    elif u < 0.97:
+        n = rng.randint(65, 1500)
     else:
         n = rng.choice([3000, 5000] + ([20000] if thorough else []))
     if maxn:
